@@ -1,7 +1,11 @@
 (* C28 — model of Node.Unsubscribe (node.go) -> Hub.unsubscribe / unsubscribeAcrossUsers
    (hub.go) -> Client.Unsubscribe / Client.unsubscribe (client.go), as a sequential
-   transition system over (connections x channel sets) in settled states (no
-   subscribe in flight).
+   transition system over (connections x channel sets).  Besides established
+   subscriptions a connection may hold subscribe attempts in flight (a reservation in
+   Client.channels whose OnSubscribe callback the application has not answered yet):
+   Client.Unsubscribe waits on the subscribing gate of such a channel, so the call
+   completes only after the application answered; the model runs "resolve" (every
+   attempt answered, successfully or not) at that point.
 
    [unsubscribe_connection] is the code AFTER the fix
    /verif/fixes/C28-empty-channel-unsubscribe.patch (hub.go: unsubscribeConnection);
@@ -28,7 +32,10 @@ Record conn := mkConn {
   cn_session : N;        (* Client.session, 0 = none (bidirectional transports) *)
   cn_lf : bool;          (* outcome of matchLabelFilter(c, opts.labelFilter); filter semantics is C15 *)
   cn_closed : bool;      (* status == statusClosed *)
-  cn_chans : list chan   (* Client.channels; hub subscription registry holds exactly these *)
+  cn_chans : list chan;  (* Client.channels with flagSubscribed; hub registry holds exactly these *)
+  cn_inflight : list (chan * bool)
+                         (* reservations (subscribingCh set, flags 0) with what the application will
+                            answer: true = success with these flags, false = error (attempt cancelled) *)
 }.
 
 (* UnsubscribeOptions + userID argument *)
@@ -43,7 +50,16 @@ Inductive ev :=
 | EvPush (cid ch code : N).                  (* unsubscribe push written to the transport *)
 
 Definition set_chans (c : conn) (l : list chan) : conn :=
-  mkConn (cn_id c) (cn_user c) (cn_session c) (cn_lf c) (cn_closed c) l.
+  mkConn (cn_id c) (cn_user c) (cn_session c) (cn_lf c) (cn_closed c) l (cn_inflight c).
+
+(* every attempt in flight has been answered: successful ones are established *)
+Definition resolve (c : conn) : conn :=
+  mkConn (cn_id c) (cn_user c) (cn_session c) (cn_lf c) (cn_closed c)
+         (cn_chans c ++ map fst (filter snd (cn_inflight c))) [].
+
+(* keys of Client.channels when the call arrives: established and reserved *)
+Definition snapshot (c : conn) : list N :=
+  map ch_name (cn_chans c) ++ map (fun a => ch_name (fst a)) (cn_inflight c).
 
 Fixpoint find_chan (n : N) (l : list chan) : option chan :=
   match l with
@@ -80,15 +96,17 @@ Fixpoint unsub_names (c : conn) (ns : list N) (code : N) : conn * list ev :=
       (c2, e1 ++ e2)
   end.
 
-(* hub.go unsubscribeConnection (fixed code): empty channel = snapshot of all
-   channel names, then Client.Unsubscribe for each. *)
+(* hub.go unsubscribeConnection (fixed code): empty channel = snapshot of all keys of
+   Client.channels (reservations included), then Client.Unsubscribe for each; the ones in
+   flight are processed after the application answered (wait gate).  A cancelled attempt
+   is then not in Client.channels any more: Client.Unsubscribe still sends its push. *)
 Definition unsubscribe_connection (c : conn) (n code : N) : conn * list ev :=
-  if n =? 0 then unsub_names c (map ch_name (cn_chans c)) code
-  else client_unsubscribe c n code.
+  if n =? 0 then unsub_names (resolve c) (snapshot c) code
+  else client_unsubscribe (resolve c) n code.
 
 (* the code before the fix *)
 Definition unsubscribe_connection_prefix (c : conn) (n code : N) : conn * list ev :=
-  client_unsubscribe c n code.
+  client_unsubscribe (resolve c) n code.
 
 (* Node.Unsubscribe routing: user "" with allUsers => every connection of the hub,
    else the connections registered under that user id (incl. the anonymous bucket). *)
@@ -114,7 +132,7 @@ Section Node.
         let '(r', er) := node_unsub t n code r in
         if in_scope t c && narrow t c then
           let '(c', e) := uc c n code in (c' :: r', e ++ er)
-        else (c :: r', er)
+        else (resolve c :: r', er)
     end.
 
   (* Node.Unsubscribe on one node of a cluster: the control message carries
